@@ -1,9 +1,10 @@
 #!/bin/sh
-# usage: runtests.sh <worktree>  -- rebuild flex from the worktree sources, regenerate all test scanners, run the 257-test suite
+# usage: runtests.sh <tree>  -- rebuild flex in an in-tree autotools build, regenerate all test scanners, run the 257-test suite
 d=$1
 cd "$d" || exit 2
-make -C src -j8 >/tmp/wt/$(basename $d).build.log 2>&1 || { echo "BUILD FAILED (see /tmp/wt/$(basename $d).build.log)"; exit 2; }
+b=/tmp/$(basename $d).build.log
+make -C src -j8 >$b 2>&1 || make -C src >$b 2>&1 || { echo "BUILD FAILED (see $b)"; exit 2; }
 make -C tests clean >/dev/null 2>&1
-make check -j8 >/tmp/wt/$(basename $d).check.log 2>&1
-grep -E "^# (TOTAL|PASS|FAIL|ERROR)" /tmp/wt/$(basename $d).check.log
-grep -q "^# PASS:  257" /tmp/wt/$(basename $d).check.log
+make check -j8 >/tmp/$(basename $d).check.log 2>&1
+grep -E "^# (TOTAL|PASS|FAIL|ERROR)" /tmp/$(basename $d).check.log
+grep -q "^# PASS:  257" /tmp/$(basename $d).check.log
